@@ -222,6 +222,24 @@ func runBlock(r *simk.Run, f focus) *simk.Violation {
 						need[string(k)] |= state.Write
 					}
 				}
+				// error-swallowing probes: touch a key (often one the action has no right to), carry on, touch it again
+				if c.Bool(f.permFaults*0.5 + 0.05) {
+					k := keysU[c.Intn(nKeys)]
+					kind := []string{"tryget", "tryput", "trydel"}[c.Intn(3)]
+					probe := SimOp{Kind: kind, Key: k}
+					if kind == "tryput" {
+						probe.Val = genValue(c, int(nonce))
+					}
+					pos := c.Intn(len(sa.Ops) + 1)
+					ops := append([]SimOp{}, sa.Ops[:pos]...)
+					ops = append(ops, probe)
+					ops = append(ops, sa.Ops[pos:]...)
+					again := SimOp{Kind: []string{"tryget", "tryput", "trydel", kind}[c.Intn(4)], Key: k}
+					if again.Kind == "tryput" {
+						again.Val = genValue(c, int(nonce)+1)
+					}
+					sa.Ops = append(ops, again)
+				}
 				if c.Bool(f.failOps) {
 					pos := c.Intn(len(sa.Ops) + 1)
 					ops := append([]SimOp{}, sa.Ops[:pos]...)
